@@ -55,7 +55,7 @@ func init() {
 	reg("C07", ruleStateMachine, ruleNoReturnBeforeStateGuard)
 	reg("C02", ruleJsonKinds, ruleUnionTagDecision, ruleKindTests, ruleOptionalFieldSymmetry, ruleJsonNamesAreModelNames)
 	reg("C14", rulePlan, ruleUnionTagDecision, ruleRecordOrder, ruleOptionalFieldSymmetry, ruleTrivialRecordTrait, ruleMatlabExtentOrderAgrees)
-	reg("C10", rulePassOrder, rulePairAccess, ruleConstIndex(frontEndNoEvolution, "P2", 30), ruleMakeBounds, ruleErrorProvenance, ruleBreakInSwitchInLoop, rulePositions, ruleNodeLiteralsPositioned, ruleBigIndex, ruleAborts(frontEndNoEvolution, "P4", 25), ruleDecodeLoopLeavesOnError, ruleContextLiteralsComplete, ruleDecodeIntoPointerPointer, ruleOptionalDeref(frontEndNoEvolution, "NP1", 30),
+	reg("C10", rulePassOrder, rulePairAccess, ruleConstIndex(frontEndNoEvolution, "P2", 30), ruleMakeBounds, ruleErrorProvenance, ruleBreakInSwitchInLoop, rulePositions, ruleNodeLiteralsPositioned, ruleBigIndex, ruleAborts(frontEndNoEvolution, "P4", 25), ruleDecodeLoopLeavesOnError, ruleContextLiteralsComplete, ruleDecodeIntoPointerPointer, ruleNullTypeOnlyInUnions, ruleOptionalDeref(frontEndNoEvolution, "NP1", 30),
 		ruleE3(frontScope, "E3"), ruleCollectPackages, ruleBinaryOperatorTokens, ruleReflectiveWalkTerminates)
 	reg("C20", ruleWatchSerialised, ruleWatchRecovers, ruleChdirRestored, ruleWatchEveryEventSchedules, ruleWatchSurvivesErrors, ruleWatchInputsNotMutated)
 	reg("C18", ruleCollectPackages, ruleTemporaryCwdPathsAbsolute, ruleNamespaceFlattening, ruleAllModelsValidated, ruleNoSelfComparison(frontEndFile, "E6", 1), ruleLookedUpMapsAreFilled(frontEndFile, "D1", 15), ruleE2(frontScope, "E2"), ruleE5(frontScope, "E5"))
